@@ -1,4 +1,288 @@
-import LyModel.Val.Model
+import LyModel.Val.LemmasMisc
+/-!
+# C03 — typed values: acceptance, canonical form, equality and ordering follow RFC 7950
+
+Property theorems about the executable model `LyModel.Val` (file `Val/Model.lean`, tied to the C code by the
+correspondence check `tools/checks/c03.py`).  Specifications (`IntLexWs`, `DecLexWs`, `IsCanonInt`, `IsCanonDec`,
+`InParts`, `PartsWF`) are in `Val/Spec.lean` and are written from RFC 7950 §9.2 / §9.3, not from the code.
+Every statement is for all inputs; bounds and the hint table are the *generated* ones (`Generated/ValBounds.lean`).
+-/
 namespace LyModel.Props.C03
-theorem placeholder : True := trivial
+open LyModel LyModel.Val
+
+/-! ## generated facts the other theorems rest on -/
+
+/-- The bounds `integer.c` hands to the lexical parsers are the RFC 7950 §9.2 value spaces, and the LYB size is the width. -/
+theorem bounds_are_rfc (t : IntTy) :
+    t.min = (if t.signed then -(2 ^ (t.bits - 1) : Int) else 0) ∧
+    t.max = (if t.signed then 2 ^ (t.bits - 1) - 1 else 2 ^ t.bits - 1 : Int) ∧ 8 * t.lybSize = t.bits :=
+  ⟨(IntTy.min_max_values t).1, (IntTy.min_max_values t).2, IntTy.lybSize_bits t⟩
+
+example : IntTy.min .int64 = -9223372036854775808 ∧ IntTy.max .uint64 = 18446744073709551615 := by decide
+
+/-- `lyplg_type_check_hints`, as executed by the translator, is RFC 7951 §6 typing: 8/16/32-bit integers need a number
+    hint, 64-bit integers the num64 hint, decimal64/enumeration/bits/string a string hint, boolean the boolean hint. -/
+theorem hints_table_is_rfc7951 (hints : Nat) :
+    (∀ t ∈ ["int8", "int16", "int32", "uint8", "uint16", "uint32"], (checkHints hints t).isSome = (hints % 16 / 2 != 0)) ∧
+    (∀ t ∈ ["int64", "uint64"], (checkHints hints t).isSome = (hints % 32 / 16 == 1)) ∧
+    (∀ t ∈ ["dec64", "enum", "bits", "string"], (checkHints hints t).isSome = (hints % 2 == 1)) ∧
+    (checkHints hints "bool").isSome = (hints % 64 / 32 == 1) := by
+  have key : ∀ h : Fin 128,
+      (∀ t ∈ ["int8", "int16", "int32", "uint8", "uint16", "uint32"], (checkHints h.val t).isSome = (h.val % 16 / 2 != 0)) ∧
+      (∀ t ∈ ["int64", "uint64"], (checkHints h.val t).isSome = (h.val % 32 / 16 == 1)) ∧
+      (∀ t ∈ ["dec64", "enum", "bits", "string"], (checkHints h.val t).isSome = (h.val % 2 == 1)) ∧
+      (checkHints h.val "bool").isSome = (h.val % 64 / 32 == 1) := by decide
+  have hm : hints % 128 < 128 := Nat.mod_lt _ (by decide)
+  have hk := key ⟨hints % 128, hm⟩
+  have hc : ∀ t, checkHints (hints % 128) t = checkHints hints t := by
+    intro t; unfold checkHints; simp
+  simp only [hc] at hk
+  have e1 : hints % 128 % 16 = hints % 16 := by omega
+  have e2 : hints % 128 % 32 = hints % 32 := by omega
+  have e3 : hints % 128 % 2 = hints % 2 := by omega
+  have e4 : hints % 128 % 64 = hints % 64 := by omega
+  rw [e1, e2, e3, e4] at hk
+  exact hk
+
+example : (checkHints Generated.LYD_HINT_DATA "int8").isSome = true ∧ (checkHints 17 "int8").isSome = false := by decide
+
+/-- Every data source that offers a number hint makes the integer parsers work in base 10: XML, the value API and path
+    predicates (`LYD_HINT_DATA`), JSON numbers (`LYD_VALHINT_DECNUM`); a schema default (`LYD_HINT_SCHEMA`) uses base 0. -/
+theorem number_hints_select_base (t : IntTy) :
+    checkHints Generated.LYD_HINT_DATA t.name = some 10 ∧ checkHints Generated.LYD_HINT_SCHEMA t.name = some 0 ∧
+    (t.bits < 64 → checkHints Generated.LYD_VALHINT_DECNUM t.name = some 10) := by
+  cases t <;> decide
+
+/-- FULL STATEMENT (false, finding F50): every source whose hints a 64-bit integer type accepts parses it in base 10. -/
+def Int64SourcesUseBase10 : Prop :=
+  ∀ hints b, checkHints hints "int64" = some b → hints ≠ Generated.LYD_HINT_SCHEMA → hints % 16 / 2 ≤ 1 → b = 10
+
+/-- The JSON string route (`LYD_VALHINT_STRING | LYD_VALHINT_NUM64`, no base bit) gets base 0, so `"010"` is 8 there. -/
+theorem int64_sources_use_base10_fails : ¬ Int64SourcesUseBase10 := by
+  intro h
+  have := h (Generated.LYD_VALHINT_STRING + Generated.LYD_VALHINT_NUM64) 0 (by decide) (by decide) (by decide)
+  cases this
+
+example : storeInt .int64 [] 17 [48, 49, 48] = .ok 8 ∧ storeInt .int64 [] Generated.LYD_HINT_DATA [48, 49, 48] = .ok 10 := by decide
+
+/-- The stores depend on the hints only through `lyplg_type_check_hints`: equal verdict and base ⇒ equal result, for
+    every lexical value (so the verdict cannot depend on the source in any other way). -/
+theorem same_verdict_all_sources (t : IntTy) (range : List (Int × Int)) (fd : Nat) (h1 h2 : Nat) (s : Bytes) :
+    (checkHints h1 t.name = checkHints h2 t.name → storeInt t range h1 s = storeInt t range h2 s) ∧
+    ((checkHints h1 "dec64").isSome = (checkHints h2 "dec64").isSome → storeDec64 fd range h1 s = storeDec64 fd range h2 s) :=
+  ⟨storeInt_hints_irrelevant t range h1 h2 s, storeDec64_hints_irrelevant fd range h1 h2 s⟩
+
+example : checkHints Generated.LYD_HINT_DATA "int8" = checkHints Generated.LYD_VALHINT_DECNUM "int8" := by decide
+
+/-! ## integers -/
+
+/-- Acceptance ⇔ the string is in the RFC 7950 §9.2.1 lexical space (with libyang's whitespace tolerance), its value
+    is within the type's bounds and in the union of the range parts.  Base-10 hints; strings without NUL. -/
+theorem int_accept_iff (t : IntTy) (range : List (Int × Int)) (hints : Nat) (s : Bytes) (v : Int)
+    (h0 : (0 : UInt8) ∉ s) (hb : checkHints hints t.name = some 10) (hwf : PartsWF t.min t.max range) :
+    storeInt t range hints s = .ok v ↔ IntLexWs s v ∧ t.min ≤ v ∧ v ≤ t.max ∧ InParts range v :=
+  storeInt_accept_iff t range hints s v h0 hb hwf
+
+example : storeInt .int8 [(-128, -100), (5, 20)] Generated.LYD_HINT_DATA [32, 43, 48, 49, 50, 10] = .ok 12 := by decide
+example : PartsWF (IntTy.min .int8) (IntTy.max .int8) [(-128, -100), (5, 20)] := by simp only [PartsWF]; decide
+
+/-- `lyplg_type_validate_range` on an ascending disjoint part list decides membership in the union — in the signed
+    branch for every value, in the unsigned branch (64-bit patterns compared as `uint64_t`) for every value of `[0, 2⁶⁴)`. -/
+theorem range_check_correct (lo hi : Int) (parts : List (Int × Int)) (v : Int) (hwf : PartsWF lo hi parts) :
+    (validateRange false parts v = true ↔ InParts parts v) ∧
+    (0 ≤ lo → hi < 2 ^ 64 → 0 ≤ v → v < 2 ^ 64 → (validateRange true parts v = true ↔ InParts parts v)) := by
+  refine ⟨validateRange_signed_iff parts v hwf, ?_⟩
+  intro hlo hhi h0 h1
+  rw [validateRange_unsigned_eq hlo hhi parts v hwf h0 h1]
+  exact validateRange_signed_iff parts v hwf
+
+example : validateRange true [(0, 5), (2 ^ 63, 2 ^ 64 - 1)] (2 ^ 63 + 1) = true ∧ validateRange true [(0, 5), (2 ^ 63, 2 ^ 64 - 1)] 6 = false := by decide
+
+/-- The signed/unsigned choice matters: on the bit pattern of a uint64 above 2⁶³ the signed comparison is wrong. -/
+theorem range_branch_matters : validateRange false [(0, 5), (2 ^ 63, 2 ^ 64 - 1)] (2 ^ 63 + 1 - 2 ^ 64) = false ∧
+    validateRange true [(0, 5), (2 ^ 63, 2 ^ 64 - 1)] (2 ^ 63 + 1 - 2 ^ 64) = true := by decide
+
+/-- Canonical idempotence: storing the canonical string of a value of the type returns that value. -/
+theorem int_canon_idempotent (t : IntTy) (range : List (Int × Int)) (hints : Nat) (v : Int)
+    (hb : checkHints hints t.name = some 10) (hwf : PartsWF t.min t.max range)
+    (hlo : t.min ≤ v) (hhi : v ≤ t.max) (hin : InParts range v) :
+    storeInt t range hints (canonInt v) = .ok v :=
+  storeInt_canon t range hints v hb hwf hlo hhi hin
+
+/-- … and therefore the canonical form of whatever was parsed re-parses to the same value and the same canonical form. -/
+theorem int_canon_of_parsed (t : IntTy) (range : List (Int × Int)) (hints : Nat) (s : Bytes) (v : Int)
+    (h0 : (0 : UInt8) ∉ s) (hb : checkHints hints t.name = some 10) (hwf : PartsWF t.min t.max range)
+    (h : storeInt t range hints s = .ok v) : storeInt t range hints (canonInt v) = .ok v := by
+  obtain ⟨_, hlo, hhi, hin⟩ := (storeInt_accept_iff t range hints s v h0 hb hwf).mp h
+  exact storeInt_canon t range hints v hb hwf hlo hhi hin
+
+example : canonInt (-128) = [45, 49, 50, 56] ∧ storeInt .int8 [] Generated.LYD_HINT_DATA [45, 49, 50, 56] = .ok (-128) := by decide
+
+/-- The canonical form of an integer is the RFC 7950 §9.2.2 one: no `+`, no leading zeros, zero is `0`. -/
+theorem int_canon_is_rfc_canonical (v : Int) : IsCanonInt (canonInt v) := intDec_canonical v
+
+/-- Equality of integer values ⇔ equality of canonical strings. -/
+theorem int_eq_iff_canon_eq (a b : Int) : a = b ↔ canonInt a = canonInt b :=
+  ⟨fun h => h ▸ rfl, intDec_injective⟩
+
+/-- value → LYB → value is the identity on every value of the type (two's complement, little endian, `lybSize` bytes). -/
+theorem int_lyb_roundtrip (t : IntTy) (range : List (Int × Int)) (hints : Nat) (s : Bytes) (v : Int)
+    (h : storeInt t range hints s = .ok v) : unlybInt t range (lybInt t v) = .ok v ∧ (lybInt t v).length = t.lybSize := by
+  obtain ⟨hlo, hhi, hr⟩ := storeInt_ok_bounds h
+  exact ⟨unlybInt_lybInt t range v hlo hhi hr, leBytes_length _ _⟩
+
+example : lybInt .int16 (-2) = [0xfe, 0xff] ∧ unlybInt .int16 [] [0xfe, 0xff] = .ok (-2) := by decide
+
+/-! ## decimal64 -/
+
+/-- FULL STATEMENT (false as written): acceptance ⇔ RFC 7950 §9.3.1 lexical space, representable mantissa, ranges. -/
+def Dec64AcceptIff : Prop :=
+  ∀ (fd : Nat), 1 ≤ fd → fd ≤ 18 → ∀ (range : List (Int × Int)) (hints : Nat) (s : Bytes) (k : Int),
+    (checkHints hints "dec64").isSome = true → PartsWF (-(2 ^ 63)) (2 ^ 63 - 1) range →
+    (storeDec64 fd range hints s = .ok k ↔ DecLexWs true fd s k ∧ -(2 ^ 63) ≤ k ∧ k ≤ 2 ^ 63 - 1 ∧ InParts range k)
+
+/-- Finding F2: the bare sign `"+"` is accepted as 0 although the RFC grammar needs a digit. -/
+theorem dec64_accept_iff_fails : ¬ Dec64AcceptIff := by
+  intro h
+  have hacc : storeDec64 1 [] Generated.LYD_HINT_DATA [43] = .ok 0 := by decide
+  obtain ⟨⟨l, sg, ip, fr, r, point, hs, _, _, _, hip, _, _, _, hne, _⟩, _⟩ :=
+    (h 1 (by decide) (by decide) [] Generated.LYD_HINT_DATA [43] 0 (by decide) trivial).mp hacc
+  simp only [if_true] at hne
+  -- a digit of the integer part would have to occur in the one-character string "+"
+  cases ip with
+  | nil => exact hne rfl
+  | cons c ip' =>
+    have hmem : c ∈ ([43] : Bytes) := by rw [hs]; simp
+    simp only [List.all_cons, Bool.and_eq_true] at hip
+    have : c = 43 := by simpa using hmem
+    rw [this] at hip
+    exact absurd hip.1 (by decide)
+
+/-- What the code accepts, exactly: the RFC lexical space without the requirement of a digit between a sign and the
+    point/end (`DecLexWs false`) — for every fraction-digits value, every range, every string. -/
+theorem dec64_accept_iff_partial (fd : Nat) (hfd : 1 ≤ fd) (range : List (Int × Int)) (hints : Nat) (s : Bytes) (k : Int)
+    (hh : (checkHints hints "dec64").isSome = true) (hwf : PartsWF (-(2 ^ 63)) (2 ^ 63 - 1) range) :
+    storeDec64 fd range hints s = .ok k ↔ DecLexWs false fd s k ∧ -(2 ^ 63) ≤ k ∧ k ≤ 2 ^ 63 - 1 ∧ InParts range k :=
+  storeDec64_accept_iff fd hfd range hints s k hh hwf
+
+/-- Every RFC lexical value with a representable in-range mantissa is accepted with that mantissa (the ⇐ half of the
+    full statement holds; only ⇒ fails, and only for the forms without an integer digit). -/
+theorem dec64_accepts_rfc (fd : Nat) (hfd : 1 ≤ fd) (range : List (Int × Int)) (hints : Nat) (s : Bytes) (k : Int)
+    (hh : (checkHints hints "dec64").isSome = true) (hwf : PartsWF (-(2 ^ 63)) (2 ^ 63 - 1) range)
+    (hl : DecLexWs true fd s k) (hlo : -(2 ^ 63) ≤ k) (hhi : k ≤ 2 ^ 63 - 1) (hin : InParts range k) :
+    storeDec64 fd range hints s = .ok k :=
+  (storeDec64_accept_iff fd hfd range hints s k hh hwf).mpr ⟨hl.weaken, hlo, hhi, hin⟩
+
+example : storeDec64 2 [(-100, 100), (500, 9223372036854775807)] Generated.LYD_HINT_DATA [45, 48, 46, 53, 48, 48, 32] = .ok (-50) := by decide
+example : storeDec64 18 [] Generated.LYD_HINT_DATA
+    [45, 57, 46, 50, 50, 51, 51, 55, 50, 48, 51, 54, 56, 53, 52, 55, 55, 53, 56, 48, 56] = .ok (-9223372036854775808) := by decide
+
+/-- Canonical idempotence for **every** int64 mantissa and every fraction-digits value: `parse (print n) = n`. -/
+theorem dec64_canon_idempotent (fd : Nat) (hfd : 1 ≤ fd) (range : List (Int × Int)) (hints : Nat) (n : Int)
+    (hh : (checkHints hints "dec64").isSome = true) (hwf : PartsWF (-(2 ^ 63)) (2 ^ 63 - 1) range)
+    (hlo : -(2 ^ 63) ≤ n) (hhi : n ≤ 2 ^ 63 - 1) (hin : InParts range n) :
+    storeDec64 fd range hints (num2str fd n) = .ok n :=
+  (storeDec64_accept_iff fd hfd range hints _ n hh hwf).mpr ⟨(num2str_lex fd hfd n).weaken, hlo, hhi, hin⟩
+
+/-- … hence for whatever was parsed, the canonical string re-parses to the same value. -/
+theorem dec64_canon_of_parsed (fd : Nat) (hfd : 1 ≤ fd) (range : List (Int × Int)) (hints : Nat) (s : Bytes) (k : Int)
+    (hh : (checkHints hints "dec64").isSome = true) (hwf : PartsWF (-(2 ^ 63)) (2 ^ 63 - 1) range)
+    (h : storeDec64 fd range hints s = .ok k) : storeDec64 fd range hints (num2str fd k) = .ok k := by
+  obtain ⟨_, hlo, hhi, hin⟩ := (storeDec64_accept_iff fd hfd range hints s k hh hwf).mp h
+  exact dec64_canon_idempotent fd hfd range hints k hh hwf hlo hhi hin
+
+example : num2str 3 (-5) = [45, 48, 46, 48, 48, 53] ∧ num2str 1 10 = [49, 46, 48] ∧ num2str 18 (-9223372036854775808) =
+    [45, 57, 46, 50, 50, 51, 51, 55, 50, 48, 51, 54, 56, 53, 52, 55, 55, 53, 56, 48, 56] := by decide
+
+/-- `decimal64_num2str` prints the RFC 7950 §9.3.2 canonical form — no `+`, at least one digit on each side of the point,
+    no superfluous leading or trailing zeros — and the string is an RFC lexical value denoting the mantissa. -/
+theorem dec64_canon_is_rfc_canonical (fd : Nat) (hfd : 1 ≤ fd) (n : Int) :
+    IsCanonDec (num2str fd n) ∧ DecLexWs true fd (num2str fd n) n :=
+  ⟨num2str_canonical fd hfd n, num2str_lex fd hfd n⟩
+
+/-- The two `sprintf`s of `decimal64_num2str` and the NUL fit the `LY_NUMBER_MAXLEN` (generated) buffer for every int64
+    mantissa and fraction-digits ≤ 18 — with nothing to spare at `INT64_MIN`. -/
+theorem dec64_num2str_fits (fd : Nat) (hfd : fd ≤ 18) (n : Int) (hlo : -(2 ^ 63) ≤ n) (hhi : n ≤ 2 ^ 63 - 1) :
+    num2strBufNeed fd n ≤ Generated.LY_NUMBER_MAXLEN :=
+  num2str_fits fd hfd n hlo hhi
+
+example : num2strBufNeed 18 (-9223372036854775808) = Generated.LY_NUMBER_MAXLEN := by decide
+
+/-- Equality of decimal64 values ⇔ equality of canonical strings (same fraction-digits). -/
+theorem dec64_eq_iff_canon_eq (fd : Nat) (hfd : 1 ≤ fd) (a b : Int)
+    (ha : -(2 ^ 63) ≤ a ∧ a ≤ 2 ^ 63 - 1) (hb : -(2 ^ 63) ≤ b ∧ b ≤ 2 ^ 63 - 1) : a = b ↔ num2str fd a = num2str fd b := by
+  constructor
+  · intro h; rw [h]
+  · intro h
+    have h1 := parseDec64_num2str fd hfd a ha.1 ha.2
+    have h2 := parseDec64_num2str fd hfd b hb.1 hb.2
+    rw [h, h2] at h1
+    injection h1 with h1; exact h1.symm
+
+theorem dec64_lyb_roundtrip (fd : Nat) (range : List (Int × Int)) (hints : Nat) (s : Bytes) (v : Int)
+    (h : storeDec64 fd range hints s = .ok v) : unlybDec64 range (lybDec64 v) = .ok v ∧ (lybDec64 v).length = 8 := by
+  obtain ⟨hlo, hhi, hr⟩ := storeDec64_ok_bounds h
+  exact ⟨unlybDec64_lybDec64 range v hlo hhi hr, leBytes_length _ _⟩
+
+/-! ## ordering -/
+
+/-- The `sort` callbacks of the numeric types, boolean and string are total orders consistent with equality:
+    antisymmetric, transitive, and 0 exactly on equal values. -/
+theorem sort_total_order :
+    (∀ a b : Int, cmpInt a b = -cmpInt b a) ∧ (∀ a b c : Int, cmpInt a b ≤ 0 → cmpInt b c ≤ 0 → cmpInt a c ≤ 0) ∧
+    (∀ a b : Bytes, strcmp a b = -strcmp b a) ∧ (∀ a b c : Bytes, strcmp a b ≤ 0 → strcmp b c ≤ 0 → strcmp a c ≤ 0) ∧
+    (∀ a b : Bytes, memcmp a b = -memcmp b a) ∧
+    (∀ a b c : Bytes, a.length = b.length → b.length = c.length → memcmp a b ≤ 0 → memcmp b c ≤ 0 → memcmp a c ≤ 0) :=
+  ⟨cmpInt_antisymm, cmpInt_trans, strcmp_antisymm, strcmp_trans, memcmp_antisymm, memcmp_trans⟩
+
+theorem sort_consistent_with_eq :
+    (∀ a b : Int, cmpInt a b = 0 ↔ a = b) ∧ (∀ a b : Bytes, strcmp a b = 0 ↔ a = b) ∧
+    (∀ a b : Bytes, a.length = b.length → (memcmp a b = 0 ↔ a = b)) ∧
+    (∀ a b : Bool, sortBool a b = 0 ↔ a = b) := by
+  refine ⟨cmpInt_zero, strcmp_zero, memcmp_zero, ?_⟩
+  intro a b; cases a <;> cases b <;> decide
+
+example : cmpInt (-3) 7 = -1 ∧ strcmp [97] [97, 0] = -1 ∧ memcmp [1, 2] [1, 3] = -1 := by decide
+
+/-- The enumeration sort callback is a total order consistent with equality of values, but it is the *descending* one
+    (`lyplg_type_sort_enum` returns −1 for the greater value): a system-ordered leaf-list lists enums by falling value. -/
+theorem enum_sort_is_descending (a b : EnumItem) :
+    sortEnum a b = cmpInt b.value a.value ∧ (sortEnum a b = 0 ↔ a.value = b.value) := by
+  unfold sortEnum cmpInt
+  refine ⟨?_, ?_⟩ <;> split <;> (try split) <;> (try split) <;> (try split) <;> omega
+
+/-! ## boolean, enumeration -/
+
+theorem bool_accept_iff (hints : Nat) (s : Bytes) (b : Bool) (hh : (checkHints hints "bool").isSome = true) :
+    storeBool hints s = .ok b ↔ s = canonBool b := by
+  unfold storeBool
+  cases hc : checkHints hints "bool" with
+  | none => rw [hc] at hh; cases hh
+  | some _ =>
+    simp only
+    by_cases h1 : s = strTrue
+    · subst h1; cases b <;> simp [canonBool] <;> decide
+    · by_cases h2 : s = strFalse
+      · subst h2; cases b <;> simp [canonBool] <;> decide
+      · have e1 : (s == strTrue) = false := by simpa using h1
+        have e2 : (s == strFalse) = false := by simpa using h2
+        simp only [e1, e2, Bool.false_eq_true, if_false, reduceCtorEq, false_iff]
+        cases b <;> simp [canonBool] <;> assumption
+
+theorem bool_canon_lyb (b : Bool) (hints : Nat) (hh : (checkHints hints "bool").isSome = true) :
+    storeBool hints (canonBool b) = .ok b ∧ unlybBool (lybBool b) = .ok b :=
+  ⟨storeBool_canon hints b hh, unlybBool_lybBool b⟩
+
+/-- An enumeration value is accepted exactly when it is the name of an item; it round-trips through its canonical
+    string (the name) and through LYB (the int32 value). -/
+theorem enum_accept_iff (items : List EnumItem) (hints : Nat) (s : Bytes) (it : EnumItem)
+    (hwf : EnumWF items) (hh : (checkHints hints "enum").isSome = true) :
+    (storeEnum items hints s = .ok it ↔ it ∈ items ∧ it.name = s) ∧
+    (it ∈ items → storeEnum items hints it.name = .ok it ∧ unlybEnum items (lybEnum it) = .ok it) := by
+  refine ⟨storeEnum_accept_iff items hints s it hwf hh, fun hm => ⟨?_, unlybEnum_lybEnum items it hwf hm⟩⟩
+  exact (storeEnum_accept_iff items hints it.name it hwf hh).mpr ⟨hm, rfl⟩
+
+example : storeEnum [⟨[120], 0⟩, ⟨[121], 5⟩, ⟨[122], -3⟩] Generated.LYD_HINT_DATA [122] = .ok ⟨[122], -3⟩ ∧
+    lybEnum ⟨[122], -3⟩ = [0xfd, 0xff, 0xff, 0xff] := by decide
+
 end LyModel.Props.C03
